@@ -37,6 +37,21 @@ def J.isObj : J → Bool
   | .obj _ => true
   | _ => false
 
+mutual
+/-- a value a JSON library dumps and loads back unchanged: only the constructors of `J`
+(by typing) and every object is a proper mapping (pairwise distinct keys) -/
+def J.native : J → Bool
+  | .arr xs => J.nativeList xs
+  | .obj kvs => decide ((kvs.map (·.1)).Nodup) && J.nativePairs kvs
+  | _ => true
+def J.nativeList : List J → Bool
+  | [] => true
+  | x :: xs => x.native && J.nativeList xs
+def J.nativePairs : List (Str × J) → Bool
+  | [] => true
+  | kv :: rest => kv.2.native && J.nativePairs rest
+end
+
 /-- `d[k] = v` on an insertion-ordered dict -/
 def kvSet {α} (d : List (Str × α)) (k : Str) (v : α) : List (Str × α) :=
   if d.any (·.1 = k) then d.map (fun kw => if kw.1 = k then (kw.1, v) else kw) else d ++ [(k, v)]
